@@ -285,7 +285,7 @@ Proof.
         match goal with |- context [if ?c then _ else _] => destruct c end; [|intros H; inversion H; reflexivity].
         destruct (unit_name (tinfo (last (t0 :: ct) (TBlock 0%N [])))); [|intros H; inversion H; reflexivity].
         match goal with |- context [match unit_name ?x with _ => _ end] => destruct (unit_name x) end;
-          [|discriminate].
+          [|destruct (t_exits T); [discriminate|intros H; inversion H; reflexivity]].
         match goal with |- context [if ?c then _ else _] => destruct c end; [intros H; inversion H; reflexivity|].
         destruct (t_exits T); [discriminate|intros H; inversion H; reflexivity]. }
       subst c'. exists extra. split; [exact E|]. split; [exact W2|].
